@@ -64,7 +64,7 @@ def generate(r, tier):
         sc["via"] = r.choice(["lib", "kconfgen", "kconfgen"])
         gens = []
         for _ in range(r.randint(2, 4)):
-            gens.append(assigns(r.randint(1, 3)) if (not gens or r.random() < 0.5) else [])
+            gens.append(assigns(r.randint(1, 3)) if (not gens or r.random() < 0.4) else [])
         sc["gens"] = gens
         sc["formats"] = r.sample(["config", "header", "cmake", "json", "json_menus", "savedefconfig", "docs", "report"], r.randint(2, 8))
         sc["labels"] = r.random() < 0.3
@@ -307,6 +307,7 @@ def _regen(sc, ctx, sb, kpath, rn):
             for fmt in sc["formats"]:
                 args += ["--output", fmt, dests[fmt]]
             simproc.fresh_report()
+            simproc.next_process()
             with simfs.Installed(fs, _mods(), tempdir=tmpd), simproc.quiet():
                 try:
                     kg.main.main(args=args, standalone_mode=False)
@@ -337,6 +338,17 @@ def _regen(sc, ctx, sb, kpath, rn):
             elif b is not None:
                 changed += 1
                 ctx.counters["probe:regen-rewritten"] += 1
+                # identical inputs: nothing new is assigned and - where the sdkconfig is also an input (kconfgen --config) -
+                # the previous generation already started from the file it then left unchanged
+                same_inputs = gi > 0 and not g and (sc["via"] == "lib" or "config" not in sc.get("formats", ())
+                                                    or (gi > 1 and not sc["gens"][gi - 1]))
+                if same_inputs:
+                    # the generation repeats the previous configuration with identical inputs in a new process: whatever
+                    # differs in the output (an iteration order, a temp-file name, a counter) makes every build rewrite it
+                    ctx.violate(f"C13/output-differs-for-unchanged-configuration/{sc['via']}/{name}",
+                                f"generation {gi} repeats the configuration of generation {gi - 1} but {name} changed "
+                                f"({len(b)} -> {len(after)} bytes; first difference at byte "
+                                f"{next((i for i, (x, y) in enumerate(zip(b, after)) if x != y), min(len(b), len(after)))})")
                 if not muts:
                     ctx.violate("C13/harness/changed-without-journal", f"{name} changed without a journalled operation")
         # leftovers of the temp-file flow
